@@ -52,7 +52,7 @@ TABLE = [
     (r"parser\.rs", r"parse_query", r"ast\.pop\(\)\.unwrap\(\)", ("Known", "F6c empty statement list")),
     (r"parser\.rs", r"get_limit", r"parse::<u64>\(\)\.unwrap\(\)", ("Known", "F6a LIMIT literal")),
     (r"parser\.rs", r"get_offset", r"parse::<u64>\(\)\.unwrap\(\)", ("Known", "F6a OFFSET literal")),
-    (r"parser\.rs", r"strip_quotes", r"ident\[1\.\.ident\.len\(\) - 1\]", ("Known", "F6b strip_quotes slice")),
+    (r"parser\.rs", r"strip_quotes", r"ident\[1\.\.ident\.len\(\) - 1\]", ("Guarded", "both ends are one-byte quote characters and len >= 2 (fix 7f4db9b; Proofs/Frontend.quoted_boundaries)")),
     (r"parser\.rs", r"get_raw_val", r"parse::<i64>\(\)\.unwrap\(\)", ("Guarded", "guarded by is_ok() on the same parse")),
     (r"parser\.rs", r"get_raw_val", r"parse::<f64>\(\)\.unwrap\(\)", ("Guarded", "sqlparser number tokens always parse as f64 (model: PSFloatUnwrap, never produced by the tokenizer; tallied by c12_parse)")),
     # ---- locustdb.rs
@@ -65,7 +65,7 @@ TABLE = [
     (r"query_task\.rs", r"eligible_pair|combine_results", r"batch_results\.remove\(&key[12]\)\.unwrap\(\)", ("Guarded", "keys returned by eligible_pair are present")),
     (r"query_task\.rs", r"push_result", r"\.unwrap\(\) \.0|final_pass \.run\(|^\) \.unwrap\(\)$", ("Known", "F27 final-pass error unwrapped")),
     (r"query_task\.rs", r"push_result", r"owned_results\.into_iter\(\)\.next\(\)\.unwrap\(\)", ("Guarded", "len == 1 checked just above")),
-    (r"query_task\.rs", r"convert_to_output_format", r"len\(\)\s*-\s*offset", ("Known", "F5a len - offset")),
+    (r"query_task\.rs", r"convert_to_output_format", r"len\(\)\s*-\s*offset", ("Guarded", "offset is clamped to full_result.len() one line above (fix 0df51a0; C12_slice)")),
     (r"query_task\.rs", r"convert_to_output_format", r"validate\(\)\.unwrap\(\)", ("Known", "F32 constant select items: unequal column lengths")),
     (r"query_task\.rs", r"combined_limit", r"limit\b.*\+.*offset", ("Known", "F5b limit + offset")),
     (r"query_task\.rs", r"from_boxed_data", r"panic!\(\"Unsupported type", ("Guarded", "result columns are decoded vectors; scalar / merge-op types never reach the output (F32 reaches slice_box first)")),
@@ -75,9 +75,9 @@ TABLE = [
     # ---- shared_sender.rs
     (r"shared_sender\.rs", r"send", r"inner\.lock\(\)\.unwrap\(\)", ("LockPoison", "")),
     # ---- ingest
-    (r"input_column\.rs", r"from_column_data", r"assert!\(", ("Known", "F11 short string column")),
-    (r"ingest/buffer\.rs", r"push_typed_cols", r"assert!\(buffered_col\.len\(\) > self\.length\)", ("Known", "F12 zero-row buffer")),
-    (r"ingest/buffer\.rs", r"push_typed_cols", r"assert!\(new_length > self\.length\)", ("Known", "F12 zero-row buffer")),
+    (r"input_column\.rs", r"from_column_data", r"assert!\(", ("Guarded", "a short string column is padded (fix 1c4a1c7); TableBuffer never holds a column longer than the batch")),
+    (r"ingest/buffer\.rs", r"push_typed_cols", r"assert!\(buffered_col\.len\(\) > self\.length\)", ("Guarded", "zero-row buffers are skipped by ingest_efficient / WAL replay (fix 1eb96cd)")),
+    (r"ingest/buffer\.rs", r"push_typed_cols", r"assert!\(new_length > self\.length\)", ("Guarded", "zero-row buffers are skipped by ingest_efficient / WAL replay (fix 1eb96cd)")),
     (r"ingest/buffer\.rs", r"push_typed_cols", r"assert!\(new_length == 0", ("Guarded", "TableBuffer keeps all columns at one length (new / insert assert it)")),
     (r"ingest/buffer\.rs", r".*", r"\.unwrap\(\)|assert|panic!", ("NotRequestPath", "not reached by ingest_efficient (heterogeneous / CSV ingestion helpers)")),
     # ---- inner_locustdb.rs
